@@ -47,7 +47,7 @@ for c in checks:
         open(evf, "wb").write(saved)
 for w in glob.glob(os.path.join(dst, "work*")):
     shutil.rmtree(w, ignore_errors=True)
-meta = dict(property=pid[:3], round=(2 if len(pid) > 3 else 1), patch="patch.diff", demonstration=demo,
+meta = dict(property=pid[:3], round={"": 1, "b": 2, "c": 3, "d": 4}.get(pid[3:], 9), patch="patch.diff", demonstration=demo,
             needs=open(os.path.join(dst, "NOTES.md")).read()[:1500] if os.path.exists(os.path.join(dst, "NOTES.md")) else "",
             demo_on_unchanged_tree=dict(exit=rc_clean, tail=out_clean[-300:]), demo_on_seeded_tree=dict(exit=rc_seed, tail=out_seed[-300:]),
             checks_on_seeded_tree=res,
